@@ -4,6 +4,7 @@ use crate::engine::PropSpec;
 pub mod c01;
 pub mod c02;
 pub mod c03;
+pub mod c04;
 pub mod c06;
 pub mod c07;
 pub mod c08;
@@ -12,12 +13,15 @@ pub mod c11;
 pub mod c12;
 pub mod c13;
 pub mod c14;
+pub mod c18;
+pub mod c20;
 
 pub fn spec(id: &str) -> Option<PropSpec> {
     match id {
         "C01" => Some(c01::spec()),
         "C02" => Some(c02::spec()),
         "C03" => Some(c03::spec()),
+        "C04" => Some(c04::spec()),
         "C06" => Some(c06::spec()),
         "C07" => Some(c07::spec()),
         "C08" => Some(c08::spec()),
@@ -26,6 +30,8 @@ pub fn spec(id: &str) -> Option<PropSpec> {
         "C12" => Some(c12::spec()),
         "C13" => Some(c13::spec()),
         "C14" => Some(c14::spec()),
+        "C18" => Some(c18::spec()),
+        "C20" => Some(c20::spec()),
         _ => None,
     }
 }
